@@ -62,7 +62,7 @@ def norm(f, i, roles=None, defs=None, depth=0):
         rid = n["ref"]["id"]
         if rid in roles:
             return roles[rid]
-        if n["ref"]["dk"] == "local" and depth < 6:
+        if n["ref"]["dk"] == "local" and depth < 6 and not n.get("t", "").endswith("]"):
             init = q.single_def(f, rid, defs)
             if init is not None:
                 return norm(f, init, roles, defs, depth + 1)
